@@ -3039,9 +3039,17 @@ impl<'a> Model<'a> {
         let max_restarts = n * n + 1;
         let mut retry = true;
         let mut restart_count = 0;
+        #[cfg(ironcalc_verif)]
+        crate::verif::phase1::reset();
 
         while retry && restart_count < max_restarts {
             retry = false;
+            #[cfg(ironcalc_verif)]
+            let pass_order: Vec<crate::verif::phase1::Pos> = self
+                .spill_cells
+                .iter()
+                .map(|c| (c.sheet, c.row, c.column))
+                .collect();
             self.cells.clear();
             self.support.clear();
             // dynamic links (HYPERLINK) are rebuilt on every evaluation
@@ -3076,6 +3084,17 @@ impl<'a> Model<'a> {
                         .iter()
                         .any(|c| self.position_in_support(*c, &spill_area))
                     {
+                        #[cfg(ironcalc_verif)]
+                        {
+                            let all: Vec<usize> = (0..i)
+                                .filter(|&jj| {
+                                    evaluated_under[jj]
+                                        .iter()
+                                        .any(|c| self.position_in_support(*c, &spill_area))
+                                })
+                                .collect();
+                            crate::verif::phase1::record_pass(pass_order.clone(), Some((i, all)));
+                        }
                         let moved = self.spill_cells.remove(i);
                         self.spill_cells.insert(j, moved);
                         retry = true;
@@ -3087,10 +3106,22 @@ impl<'a> Model<'a> {
                     break;
                 }
             }
+            #[cfg(ironcalc_verif)]
+            if !retry {
+                crate::verif::phase1::record_pass(pass_order, None);
+            }
         }
 
         #[cfg(ironcalc_verif)]
-        crate::verif::phase1::record(n, restart_count, retry);
+        {
+            crate::verif::phase1::record(n, restart_count, retry);
+            crate::verif::phase1::record_final(
+                self.spill_cells
+                    .iter()
+                    .map(|c| (c.sheet, c.row, c.column))
+                    .collect(),
+            );
+        }
 
         if retry {
             // The restart bound was reached (circular spill dependency): the last pass stopped
